@@ -61,23 +61,25 @@ def stripZeros : Nat → Trimmed → Trimmed
   | f + 1, t => if t.output ≠ 0 ∧ t.output % 10 = 0
       then stripZeros f ⟨t.output / 10, t.olength - 1, t.exp + 1⟩ else t
 
-/-- the block `if (precision < (uint32_t) -exp) { … }` of `to_chars_fixed` (only reached with `exp < 0`) -/
+/-- rounding the last `d` decimal digits away, half-even *on the decimal digits*:
+`divisor = pow_10(d); outputDiv = output / divisor; remainder = output - outputDiv * divisor;
+ if (remainder > divisor/2 || (remainder == divisor/2 && (outputDiv & 1))) { output = outputDiv + 1; olength = decimalLength17(output); }
+ else { output = outputDiv; olength -= d; }   exp += d;` -/
+def roundDigits (output olength : Nat) (exp : Int) (d : Nat) : Trimmed :=
+  let divisor := pow10 d
+  let half := divisor / 2
+  let outputDiv := output / divisor
+  let remainder := output - outputDiv * divisor
+  if remainder > half ∨ (remainder = half ∧ outputDiv % 2 = 1)
+  then ⟨outputDiv + 1, decimalLength17 (outputDiv + 1), exp + d⟩
+  else ⟨outputDiv, olength - d, exp + d⟩
+
+/-- the block `if (precision < (uint32_t) -exp) { … }` of `to_chars_fixed` (only entered with `exp < 0`) -/
 def trimStage (output olength : Nat) (exp : Int) (precision : Nat) : Trimmed :=
   if (precision : Int) < -exp then
     let dtt : Int := -exp - precision
     if dtt > olength then ⟨0, olength, 0⟩
-    else
-      let d := dtt.toNat
-      let divisor := pow10 d
-      let half := divisor / 2
-      let outputDiv := output / divisor
-      let remainder := output - outputDiv * divisor
-      let exp' := exp + dtt
-      let t : Trimmed :=
-        if remainder > half ∨ (remainder = half ∧ outputDiv % 2 = 1)
-        then ⟨outputDiv + 1, decimalLength17 (outputDiv + 1), exp'⟩
-        else ⟨outputDiv, olength - d, exp'⟩
-      stripZeros 20 t
+    else stripZeros 20 (roundDigits output olength exp dtt.toNat)
   else ⟨output, olength, exp⟩
 
 /-- the six layout variables of `to_chars_fixed` -/
